@@ -3,7 +3,6 @@ package main
 // Symbolic heap: named arrays, versioned by fresh constants.
 
 import (
-	"fmt"
 	"go/types"
 	"sort"
 	"strings"
@@ -86,8 +85,9 @@ func (c *Ctx) newRef(st *State, hint string) string {
 	cur := c.allocTerm(st)
 	c.assert(eq(q(r), cur))
 	c.assert("(> " + q(r) + " 0)")
-	c.assert("(= (kind " + q(r) + ") 0)")
-	st.H[allocHeap] = "(+ " + q(r) + " 1)"
+	// objects are spaced refStride apart: the embedded struct objects of an
+	// object live at small offsets above its reference (see subRef)
+	st.H[allocHeap] = "(+ " + q(r) + " " + refStride + ")"
 	return q(r)
 }
 
@@ -189,28 +189,18 @@ func (c *Ctx) ghostHeap(name string, valSort string) string {
 	return h
 }
 
+// refStride is the distance between allocated references (2^60). The
+// reference of an embedded struct object is its owner's reference plus a
+// distinct power of two below the stride, so embedded objects are as old as
+// their owner, distinct from every allocated object and from each other.
+const refStride = "1152921504606846976"
+
 // subRef is the reference of the struct-typed field i of the struct object r.
 func (c *Ctx) subRef(st types.Type, i int, r string) string {
 	s := st.Underlying().(*types.Struct)
 	fn := "sub$" + typeKey(st) + "$" + s.Field(i).Name()
-	own := "own$" + typeKey(st) + "$" + s.Field(i).Name()
-	c.declFun(fn, []string{"Int"}, "Int")
-	c.declFun(own, []string{"Int"}, "Int")
-	t := app(fn, r)
-	k := c.subKind(fn)
-	a0 := c.heapInit(allocHeap, "Int")
-	c.assert(fmt.Sprintf("(and (= %s %s) (= (kind %s) %d) (> %s 0) (= (< %s %s) (< %s %s)))", app(own, t), r, t, k, t, t, a0, r, a0))
-	return t
-}
-
-func (c *Ctx) subKind(fn string) int {
-	k := "subkind$" + fn
-	if id, ok := c.typeIDs[k]; ok {
-		return id
-	}
-	id := len(c.typeIDs) + 1
-	c.typeIDs[k] = id
-	return id
+	k := c.W.subOffset(fn)
+	return "(+ " + r + " " + k + ")"
 }
 
 func isStruct(t types.Type) bool {
